@@ -21,6 +21,45 @@ LEAN_TARGETS = ["PV.C04.Thm"]
 DRIVER = "drv_c04"
 HARNESS = {"bin": "pvh_c04", "features": "default"}
 THEOREMS = [
+    "PV.C04.validatePosParams_iff",
+    "PV.C04.validatePosParams_err",
+    "PV.C04.validateArguments_iff",
+    "PV.C04.validateArguments_err",
+    "PV.C04.parseArgs_iff",
+    "PV.C04.parseArgs_err",
+    "PV.C04.matchGo_iff_dyck",
+    "PV.C04.matchGo_rejects",
+    "PV.C04.matchGo_err_position",
+    "PV.C04.rawGo_ok_dyck",
+    "PV.C04.rawGo_rejects",
+    "PV.C04.compareStrict_none_iff",
+    "PV.C04.compareStrict_iff",
+    "PV.C04.python_inconsistent_rejected",
+    "PV.C04.stricter_than_python",
+    "PV.C04.scanWs_ok_iff",
+    "PV.C04.scanWs_level",
+    "PV.C04.scanWs_error",
+    "PV.C04.dedentGo_spec",
+    "PV.C04.mixCheck_iff",
+    "PV.C04.mixCheck_none_iff",
+    "PV.C04.bytesCheck_spec",
+    "PV.C04.asUnderscore_iff",
+    "PV.C04.parenCheck_star_iff",
+    "PV.C04.parenCheck_dstar_iff",
+    "PV.C04.charClass_unrecognized_iff",
+    "PV.C04.chrCheck_rejects",
+    "PV.C04.chrCheck_bang",
+    "PV.C04.lexRest_sound",
+    "PV.C04.acceptsNumber_sound",
+    "PV.C04.malformed_number_rejected",
+    "PV.C04.lexer_below_python_witness",
+    "PV.C04.bareStar_iff",
+    "PV.C04.checkSig_none_iff",
+    "PV.C04.checkSig_kind",
+    "PV.C04.fstr_leading_equals_fails",
+    "PV.C04.fstr_leading_equals_partial",
+    "PV.C04.nestGo_eq_matchGo_erased",
+    "PV.C04.nestGo_iff_dyck_erased",
 ]
 TRUSTED = [
     "Lean 4.33.0 kernel; axioms limited to propext, Classical.choice, Quot.sound",
@@ -35,13 +74,41 @@ TRUSTED = [
     "CPython 3.11.7 (ast.parse / compile) as the meaning of 'Python rejects' for spec validation",
     "tools/props/c04.py (generators, independent Python oracle), harness/src/bin/pvh_c04.rs, lean/Drv/C04.lean",
 ]
-PARTIAL = []
-READY = False
+PARTIAL = [
+    "number lexer: proved 'whatever is taken as one numeric token is a Python numeric literal' (lexRest_sound, hence "
+    "malformed_number_rejected); the converse (every Python literal is taken whole) is not proved, only sampled "
+    "exhaustively to length 5 and validated against CPython; one shape below Python is witnessed (1.else, C01's finding)",
+    "string / f-string scanners (lex_string, parse_fstring, parse_formatted_value, parse_spec): modelled and tied by "
+    "exhaustive correspondence (all bodies of <=6 symbols); theorems only for bytes/text mixing, non-ASCII bytes and the "
+    "finding witness fstr_leading_equals_fails / _partial; f-string malformedness has no Lean Spec, the oracle uses CPython",
+    "whole-parameter-list glue: checkSig_none_iff / checkSig_kind / bareStar_iff relate the three checks to the "
+    "reference predicates on what the grammar assembles (ast::Arguments); that the assembly keeps source order within "
+    "each group is sampled by correspondence, not proved",
+    "which reduction of the LR automaton runs first, and the grammar's treatment of the tiny token languages of the "
+    "streams (numParse, rawGo trailers, strParse, indentGo block rule), are part of the tie, not of the theorems",
+    "indentation: compare_strict, eat_indentation and the dedent search are characterised for all inputs; the "
+    "line-by-line driver indentGo (and that it maintains the Chain invariant) is covered by correspondence only",
+]
+READY = True
 TECHNIQUE = ("Lean 4 theorems (validate_iff per rule, bracket matcher = Dyck language, compare_strict = agreement for "
              "all tab widths, number lexer = Python's numeric grammar) over hand-written kernels + exhaustive "
              "small-scope correspondence with the real parser at every syntactic site + independent Python oracle")
-LEVEL_TEXT = ""
-LEVEL_NOTE = ""
+LEVEL_TEXT = ("Machine-checked Lean 4 theorems, for inputs of every size, about executable models of the rule-checking "
+              "kernels: validate_pos_params / validate_arguments / parse_args reject exactly the constructs the reference "
+              "predicates call invalid, with the kind naming the rule and the location of the FIRST offending element; the "
+              "bracket matcher accepts exactly the Dyck language and stops at the first non-completable symbol; "
+              "compare_strict answers o iff o is the order for every positive tab and space width (so every CPython "
+              "TabError is reported, witnessed stricter); the dedent search fails iff the level is not on the stack; the "
+              "number lexer never takes a non-literal as one numeric token. The models are tied to the Rust code on every "
+              "run by exhaustive small-scope correspondence (parameter lists <=4, argument lists <=4, bracket words <=5/6, "
+              "indentation scripts, numerals <=4/5, strings <=6/7, f-string bodies <=5/6) at every syntactic site, and the "
+              "real parser is judged by an independent Python oracle validated against CPython; 23 kinds of single "
+              "rule-violating edits are applied at every site of template programs.")
+LEVEL_NOTE = ("Trusted: Lean kernel (axioms propext/Classical.choice/Quot.sound only); fidelity of the hand-written kernels as "
+              "sampled by correspondence; the LALRPOP automaton (not modelled: order of reductions and the small token "
+              "grammars are sampled); f64::from_str / BigInt::from_str_radix contracts; CPython 3.11.7 as reference; the "
+              "harness, driver and generators. Two known findings on the unchanged tree (f-string '=' followed by a "
+              "delimiter accepted; soft-keyword look-ahead masks errors on match/case lines).")
 RULE = ("request lines (abstract construct x syntactic context) sent to both the real parser and the Lean model; "
         "distinct = distinct request line; non-trivial = the construct breaks at least one catalogue rule")
 
@@ -341,10 +408,11 @@ def spec_num(t):
                     break
             q = p + m
             if q < n and (t[q].isalnum() or t[q] == "_"):
+                # the offending construct: the whole run of numeral characters the malformed literal sits in
+                # (`0j0.e`: the lexer reads `0j` and fails on `0.e`); an exponent marker takes its sign along
                 e = q
-                while e < n and (t[e].isalnum() or t[e] == "_"):
+                while e < n and (t[e].isalnum() or t[e] in "_."):
                     e += 1
-                    # an exponent marker takes its sign with it (`1.e+` is read as one malformed numeral)
                     if t[e - 1] in "eE" and e < n and t[e] in "+-":
                         e += 1
                 return (p, e)
@@ -641,6 +709,41 @@ def classify(req, impl_out, model_out, failure):
     return None
 
 
+def search(ctx, disagreements, bins):
+    """Model and implementation disagree on requests the oracle accepts: look for a concrete input on
+    which the IMPLEMENTATION breaks the property, near the disagreements (same construct at every
+    site, plus the construct's one-item extensions)."""
+    import core
+    hbin = bins.get((HARNESS["bin"], HARNESS.get("features", "default")))
+    if not hbin:
+        return None
+    cand = []
+    for e in disagreements[:200]:
+        ws = e["request"].split()
+        op = ws[0]
+        if op == "sig":
+            encs = {ws[1]} | {ws[1] + "." + x for x in ("n00", "k00", "w00") if ws[1] != "-"}
+            cand += [f"sig {enc} {ctx_args(c)}" for enc in encs for c in SIG_SITES]
+        elif op == "call":
+            encs = {ws[1]} | {ws[1] + "." + x for x in ("p", "s", "k0", "d") if ws[1] != "-"}
+            cand += [f"call {enc} {ctx_args(c)}" for enc in encs for c in CALL_SITES]
+        elif op == "paren":
+            cand += [f"paren {ws[1]} {ctx_args(c)}" for c in PAREN_SITES]
+        elif op == "aspat":
+            cand += [f"aspat {p} {ws[2]} {ctx_args(c)}" for p in range(len(PATTERNS)) for c in ASPAT_SITES]
+        elif op in ("brackets", "indent", "num", "chr", "cont", "strlex", "fstr", "strs", "bytes"):
+            cand.append(e["request"])
+    cand = list(dict.fromkeys(cand))[:20000]
+    if not cand:
+        return None
+    outs = core.run_lines([hbin], cand, jobs=4)
+    for r, a in zip(cand, outs):
+        f = oracle(r, a)
+        if f and not classify(r, a, None, f):
+            return {"request": r, "impl": a, "failure": f, "text": "".join(request_text(r) or ())}
+    return None
+
+
 # ------------------------------------------------------------------ spec validation against CPython
 
 def pre_build(ctx):
@@ -711,7 +814,10 @@ CALL_SITES = CALL_CTX + [
 ]
 PAREN_SITES = [("", "\n"), ("y = ", "\n"), ("f(", ")\n"), ("[", "]\n"), ("if ", ": pass\n"), ("lambda: ", "\n"),
                ("x[", "]\n"), ("print(*", ")\n"), ("y = 1 + ", "\n"), ("def f():\n  return ", "\n"),
-               ("{0: ", "}\n"), ("(", ")\n")]
+               ("{0: ", "}\n"), ("(", ")\n"), ("with ", ": pass\n"), ("with ", " as y: pass\n"),
+               ("with z, ", ": pass\n"), ("for i in ", ": pass\n"), ("for ", " in y: pass\n"), ("del ", "\n"),
+               ("y = [i for i in ", "]\n"), ("assert ", "\n"), ("y = x if ", " else x\n"), ("y = not ", "\n"),
+               ("@", "\ndef f(): pass\n")]
 ASPAT_SITES = [("match s:\n case ", ":\n  pass\n"), ("match s:\n case [", ", z]:\n  pass\n"),
                ("match s:\n case A(", "):\n  pass\n"), ("match s:\n case A(k=", "):\n  pass\n"),
                ("match s:\n case {0: ", "}:\n  pass\n"), ("match s:\n case (", "):\n  pass\n"),
@@ -929,7 +1035,7 @@ def streams(ctx):
     out.append(Stream("catalogue-at-every-site", site, kind="exhaustive", exhaustive=True, nontrivial=_violating,
                       note="parameter lists in async def/method/nested def/lambda in list, call, default, dict; argument "
                            "lists in decorators, nested calls, class keywords, with-items; parenthesised star forms in "
-                           "12 expression positions; `as` patterns in 9 pattern positions; literal concatenations"))
+                           "23 expression positions; `as` patterns in 9 pattern positions; literal concatenations"))
     out.append(Stream("single-edits-at-every-site", site_requests(ctx), kind="directed", compare=False,
                       nontrivial=lambda r: True,
                       note="23 kinds of single rule-violating edits (duplicate/default/bare-star parameters, call-site "
